@@ -22,7 +22,7 @@ CFG = {"cmds": ["list", "restore", "rm", "empty", "empty"], "oracles": ("effects
        "violations": ("effects", "listing", "no-traceback"), "profile": "malformed", "states": False, "tweak": tweak}
 LEVEL_NOTE = ("theorems: the readers are item-wise maps over the sorted name list (an item yields an entry, a diagnostic "
               "about itself, or nothing), item-wise readers are insensitive to interleaved items that yield nothing, the "
-              "sort is total, malformed items issue no call in trash-rm / trash-empty DAYS")
+              "sort is total, malformed items issue no call in trash-rm / trash-empty DAYS; C19Cmd lifts this to the loops and commands: with malformed neighbours interleaved anywhere the trash-empty loop is the SAME run as over the well-formed names alone, trash-rm likewise up to its diagnostics, trash-list (every oracle) prints exactly the well-formed lines and one diagnostic per other info file; counterexamples say what malformed means per command")
 RULE = ("seeded trash worlds with 1-3 well-formed entries per trash dir and 2-5 malformed neighbours out of 14 kinds "
         "(non-.trashinfo files, empty, truncated, binary, non-UTF-8, missing Path / DeletionDate, invalid date, info without "
         "payload, payload without info, odd stems, directory or dangling symlink named *.trashinfo, duplicate keys + CRLF); "
